@@ -12,7 +12,7 @@ import (
 	"verifextract/ex"
 )
 
-func main() { ex.Main([]string{"EditorKeys.lean"}, gen) }
+func main() { ex.Main([]string{"EditorKeys.lean", "EditorBodies.lean"}, func(c *ex.Ctx) { gen(c); genBodies(c) }) }
 
 func gen(c *ex.Ctx) {
 	var sb strings.Builder
@@ -152,4 +152,264 @@ func gen(c *ex.Ctx) {
 	sb.WriteString("\n]\n\n")
 	sb.WriteString("end VaxisModel.Gen.EditorKeys\n")
 	c.Write("EditorKeys.lean", sb.String())
+}
+
+// ---- Gen/EditorBodies.lean: statement skeletons of the functions the models transcribe ----
+
+// skel flattens a statement into lines: control statements become "if COND {" … "}" / "for … {" … "}"
+// with their bodies flattened in between, every other statement is its source text with white space
+// collapsed.  Statement kinds it does not know are emitted as their source text (never a crash).
+func skel(c *ex.Ctx, st ast.Stmt, out *[]string) {
+	flat := func(n ast.Node) string { return strings.Join(strings.Fields(c.Src(n)), " ") }
+	block := func(b *ast.BlockStmt) {
+		if b == nil {
+			return
+		}
+		for _, x := range b.List {
+			skel(c, x, out)
+		}
+	}
+	switch x := st.(type) {
+	case *ast.IfStmt:
+		h := "if "
+		if x.Init != nil {
+			h += flat(x.Init) + "; "
+		}
+		*out = append(*out, h+flat(x.Cond)+" {")
+		block(x.Body)
+		switch e := x.Else.(type) {
+		case nil:
+		case *ast.BlockStmt:
+			*out = append(*out, "} else {")
+			block(e)
+		default:
+			*out = append(*out, "} else")
+			skel(c, e, out)
+			return
+		}
+		*out = append(*out, "}")
+	case *ast.ForStmt:
+		h := "for"
+		if x.Init != nil || x.Post != nil {
+			i, p, cd := "", "", ""
+			if x.Init != nil {
+				i = flat(x.Init)
+			}
+			if x.Cond != nil {
+				cd = flat(x.Cond)
+			}
+			if x.Post != nil {
+				p = flat(x.Post)
+			}
+			h += " " + i + "; " + cd + "; " + p
+		} else if x.Cond != nil {
+			h += " " + flat(x.Cond)
+		}
+		*out = append(*out, h+" {")
+		block(x.Body)
+		*out = append(*out, "}")
+	case *ast.RangeStmt:
+		k, v := "_", "_"
+		if x.Key != nil {
+			k = flat(x.Key)
+		}
+		if x.Value != nil {
+			v = flat(x.Value)
+		}
+		*out = append(*out, "for "+k+", "+v+" := range "+flat(x.X)+" {")
+		block(x.Body)
+		*out = append(*out, "}")
+	case *ast.SwitchStmt:
+		h := "switch"
+		if x.Tag != nil {
+			h += " " + flat(x.Tag)
+		}
+		*out = append(*out, h+" {")
+		block(x.Body)
+		*out = append(*out, "}")
+	case *ast.TypeSwitchStmt:
+		*out = append(*out, "switch "+flat(x.Assign)+" {")
+		block(x.Body)
+		*out = append(*out, "}")
+	case *ast.CaseClause:
+		if x.List == nil {
+			*out = append(*out, "default:")
+		} else {
+			var ls []string
+			for _, e := range x.List {
+				ls = append(ls, flat(e))
+			}
+			*out = append(*out, "case "+strings.Join(ls, ", ")+":")
+		}
+		for _, b := range x.Body {
+			skel(c, b, out)
+		}
+	case *ast.BlockStmt:
+		*out = append(*out, "{")
+		block(x)
+		*out = append(*out, "}")
+	default:
+		*out = append(*out, flat(st))
+	}
+}
+
+// writes collects, in source order, what a method does to its receiver's state: every assignment or
+// ++/-- whose left side is a field of the receiver, every call of a receiver method used as a
+// statement (also deferred), every `return`, the `case` labels that delimit switch arms — and every
+// loop in full (skel).  Guards outside loops are not recorded: rewriting one is not a change of the
+// bookkeeping (the correspondence run judges behaviour), dropping or changing a state update is.
+func writes(c *ex.Ctx, recv string, st ast.Stmt, out *[]string) {
+	flat := func(n ast.Node) string { return strings.Join(strings.Fields(c.Src(n)), " ") }
+	onRecv := func(e ast.Expr) bool {
+		for {
+			switch x := e.(type) {
+			case *ast.SelectorExpr:
+				if id, ok := x.X.(*ast.Ident); ok && id.Name == recv {
+					return true
+				}
+				e = x.X
+			case *ast.IndexExpr:
+				e = x.X
+			default:
+				return false
+			}
+		}
+	}
+	recvCall := func(e ast.Expr) bool {
+		ce, ok := e.(*ast.CallExpr)
+		if !ok {
+			return false
+		}
+		se, ok := ce.Fun.(*ast.SelectorExpr)
+		if !ok {
+			return false
+		}
+		id, ok := se.X.(*ast.Ident)
+		return ok && id.Name == recv
+	}
+	list := func(l []ast.Stmt) {
+		for _, x := range l {
+			writes(c, recv, x, out)
+		}
+	}
+	switch x := st.(type) {
+	case *ast.ForStmt, *ast.RangeStmt:
+		skel(c, st, out)
+	case *ast.IfStmt:
+		if x.Body != nil {
+			list(x.Body.List)
+		}
+		if x.Else != nil {
+			writes(c, recv, x.Else, out)
+		}
+	case *ast.BlockStmt:
+		list(x.List)
+	case *ast.SwitchStmt:
+		if x.Body != nil {
+			list(x.Body.List)
+		}
+	case *ast.TypeSwitchStmt:
+		if x.Body != nil {
+			list(x.Body.List)
+		}
+	case *ast.CaseClause:
+		if x.List == nil {
+			*out = append(*out, "default:")
+		} else {
+			var ls []string
+			for _, e := range x.List {
+				ls = append(ls, flat(e))
+			}
+			*out = append(*out, "case "+strings.Join(ls, ", ")+":")
+		}
+		list(x.Body)
+	case *ast.AssignStmt:
+		for _, l := range x.Lhs {
+			if onRecv(l) {
+				*out = append(*out, flat(st))
+				return
+			}
+		}
+		for _, r := range x.Rhs {
+			if recvCall(r) {
+				*out = append(*out, flat(st))
+				return
+			}
+		}
+	case *ast.IncDecStmt:
+		if onRecv(x.X) {
+			*out = append(*out, flat(st))
+		}
+	case *ast.ExprStmt:
+		if recvCall(x.X) {
+			*out = append(*out, flat(st))
+		}
+	case *ast.DeferStmt:
+		if recvCall(x.Call) {
+			*out = append(*out, flat(st))
+		}
+	case *ast.ReturnStmt:
+		*out = append(*out, flat(st))
+	}
+}
+
+func genBodies(c *ex.Ctx) {
+	var sb strings.Builder
+	sb.WriteString("namespace VaxisModel.Gen.EditorBodies\n\n")
+	emit := func(name, doc string, lines []string) {
+		fmt.Fprintf(&sb, "/-- %s -/\ndef %s : List String := [\n", doc, name)
+		for i, l := range lines {
+			sep := ","
+			if i == len(lines)-1 {
+				sep = ""
+			}
+			fmt.Fprintf(&sb, "  %s%s\n", ex.LeanStr(l), sep)
+		}
+		sb.WriteString("]\n\n")
+	}
+	body := func(f *ast.File, file, recv, name string) []string {
+		if f == nil {
+			return []string{"unknown: " + file + " does not parse"}
+		}
+		fd := ex.FindFunc(f, recv, name)
+		if fd == nil || fd.Body == nil {
+			return []string{"unknown: func " + name + " not found in " + file}
+		}
+		var out []string
+		if recv == "" {
+			for _, st := range fd.Body.List {
+				skel(c, st, &out)
+			}
+			return out
+		}
+		rn := ""
+		if fd.Recv != nil && len(fd.Recv.List) > 0 && len(fd.Recv.List[0].Names) > 0 {
+			rn = fd.Recv.List[0].Names[0].Name
+		}
+		if rn == "" {
+			return []string{"unknown: func " + name + " has no named receiver"}
+		}
+		for _, st := range fd.Body.List {
+			writes(c, rn, st, &out)
+		}
+		return out
+	}
+	tf := c.Parse("vxfw/textfield/textfield.go")
+	for _, fn := range []string{"HandleEvent", "checkChanged", "Reset", "InsertStringAtCursor", "CursorTo", "DeleteCharRightOfCursor",
+		"DeleteCharLeftOfCursor", "DeleteCursorToEndOfLine", "Draw", "insertStringAtCursor"} {
+		nm := "tf" + strings.ToUpper(fn[:1]) + fn[1:]
+		if fn == "insertStringAtCursor" {
+			nm = "tfInsertLoop"
+		}
+		emit(nm, "state writes, receiver calls, returns and loops of TextField."+fn+" (vxfw/textfield/textfield.go), in source order", body(tf, "textfield.go", "TextField", fn))
+	}
+	emit("tfGraphemeCount", "statement skeleton of graphemeCountInString", body(tf, "textfield.go", "", "graphemeCountInString"))
+	ti := c.Parse("widgets/textinput/textinput.go")
+	for _, fn := range []string{"SetContent", "Update", "resegment", "Draw"} {
+		emit("ti"+strings.ToUpper(fn[:1])+fn[1:], "state writes, receiver calls, returns and loops of textinput.Model."+fn+" (widgets/textinput/textinput.go), in source order", body(ti, "textinput.go", "Model", fn))
+	}
+	emit("tiIsAlphaNumeric", "statement skeleton of isAlphaNumeric", body(ti, "textinput.go", "", "isAlphaNumeric"))
+	emit("tiWidthToCursor", "statement skeleton of widthToCursor", body(ti, "textinput.go", "", "widthToCursor"))
+	sb.WriteString("end VaxisModel.Gen.EditorBodies\n")
+	c.Write("EditorBodies.lean", sb.String())
 }
